@@ -1,6 +1,6 @@
 (** C11 — -z is newline mode with the roles of LF and NUL exchanged.  Statements only. *)
-From TucModel Require Import Base.Bytes Base.ListX Model.Bounds Model.Scan Model.Opt Model.CutStr Model.FastLane
-     Proofs.C06 Proofs.C11 Proofs.C11Run.
+From TucModel Require Import Base.Bytes Base.ListX Model.Bounds Model.Scan Model.Utf8 Model.Regex Model.Opt Model.CutStr
+     Model.FastLane Model.CutLines Model.Stream Proofs.C06 Proofs.C11 Proofs.C11Run Proofs.C11Utf8 Proofs.C11Stream Proofs.C11Lines.
 
 (** records: reading the exchanged input with the exchanged terminator gives the exchanged records *)
 Theorem C11_records :
@@ -69,6 +69,39 @@ Theorem C11_fast_lane :
     = option_map (rename_outcome swap) (read_and_cut_fast o input).
 Proof. exact C11_fast_lane_swap. Qed.
 
+(** -M: accepted with the other terminator exactly when it was, and then the exchanged output *)
+Theorem C11_fixed_memory :
+  forall (o : opt) (input : bytes),
+    neutral_texts o ->
+    match stream_opt o, stream_opt (with_eol (swap (o_eol o)) o) with
+    | Some so, Some so' => run_stream_whole so' (map swap input) = rename_outcome swap (run_stream_whole so input)
+    | None, None => True
+    | _, _ => False
+    end.
+Proof. exact C11_fixed_memory_swap. Qed.
+
+(** -l, both algorithms (in line mode the delimiter is the terminator itself) *)
+Theorem C11_line_mode :
+  forall (o : opt) (input : bytes),
+    o_regex o = None -> o_json o = false -> neutral_line_texts o ->
+    read_and_cut_lines (with_line_eol (swap (o_eol o)) o) (map swap input)
+    = option_map (rename_outcome swap) (read_and_cut_lines o input).
+Proof. exact C11_line_mode_swap. Qed.
+
+(** -c *)
+Theorem C11_character_mode :
+  forall (o : opt) (input : bytes),
+    o_regex o = Some RxChars -> o_btype o = BChars -> o_json o = false -> neutral_texts o ->
+    read_and_cut_str (with_eol (swap (o_eol o)) o) (map swap input)
+    = option_map (rename_outcome swap) (read_and_cut_str o input).
+Proof. exact C11_character_mode_swap. Qed.
+
+(** the exchange keeps UTF-8 validity and the character boundaries (what -l and -c look at
+    besides equality of bytes) *)
+Theorem C11_exchange_keeps_utf8 :
+  forall l : bytes, utf8_valid (map swap l) = utf8_valid l.
+Proof. exact utf8_valid_swap. Qed.
+
 Print Assumptions C11_records.
 Print Assumptions C11_record_splitting_is_value_blind.
 Print Assumptions C11_field_locations_are_value_blind.
@@ -79,3 +112,7 @@ Print Assumptions C11_swap_is_a_renaming.
 Print Assumptions C11_general_path.
 Print Assumptions C11_general_path_is_value_blind.
 Print Assumptions C11_fast_lane.
+Print Assumptions C11_fixed_memory.
+Print Assumptions C11_line_mode.
+Print Assumptions C11_character_mode.
+Print Assumptions C11_exchange_keeps_utf8.
